@@ -97,6 +97,20 @@ func c02ExtractFilter(p *Prog, r *Report) {
 		}
 	}
 	r.Floor("R3e", "result assignments", n, 2)
+	// every filter of the command is examined: the order of the delete and the partial filter in a combined
+	// command is not prescribed, so leaving the loop at the first match loses the other one
+	for k := 0; k < 2; k++ {
+		for _, as := range resultAssignments(fn, k) {
+			if c, isC := as.Val.(*ssa.Const); isC && c.IsNil() {
+				continue
+			}
+			if loopHeaderOf(as.Block) == nil {
+				continue
+			}
+			exits := loopEarlyExits(as.Block)
+			r.Check("R3e", "model.CmdType.ExtractFilter|all-filters-examined:"+want[k], len(exits) == 0, p.Pos(as.Pos), fmt.Sprintf("the loop over the filters is left only when they are exhausted (early exits: %v)", exits))
+		}
+	}
 }
 
 type resultAssign struct {
